@@ -3,6 +3,8 @@
      parse  CLS FONT TEXT                -> (ok LOOKUPS) | (err line) | panic | fuel | unmodelled
      egsub  CLS FONT LOOKUPS             -> (text c c c ...)
      egpos  CLS FONT LOOKUPS             -> (text c c c ...)
+     nested  CLS TEXT                    -> (ok ((li si) ...)) | (err line) | ...   (readNestedLookups)
+     enested ((li si) ...)               -> (text c c c ...)                        (explainNested)
      rtgsub CLS FONT LOOKUPS             -> parse result of the explained text
      rtgpos CLS FONT LOOKUPS             -> parse result of the explained text
    CLS  = ((rune flags) ...)   flags: 1 letter, 2 digit, 4 space, 8 print (runes >= 128)
@@ -84,6 +86,14 @@ let () = main_loop (fun c ->
     L (A "text" :: List.map an (m_explain_gsub (ucls_of_sx cls) (font_of_sx font) (lookups_of_sx ll)))
   | [A "egpos"; cls; font; ll] ->
     L (A "text" :: List.map an (m_explain_gpos (ucls_of_sx cls) (font_of_sx font) (lookups_of_sx ll)))
+  | [A "nested"; cls; text] ->
+    (match m_parse_nested (ucls_of_sx cls) (ns text) with
+     | POk l -> L [A "ok"; L (List.map (fun (a, b) -> L [an a; an b]) l)]
+     | PErr l -> L [A "err"; an l]
+     | PPanic -> A "panic" | PFuel -> A "fuel" | PUnmodelled -> A "unmodelled")
+  | [A "enested"; acts] ->
+    let l = List.map (fun p -> match p with L [a; b] -> (sx_n a, sx_n b) | _ -> failwith "bad action") (lst acts) in
+    L (A "text" :: List.map an (m_explain_nested l))
   | [A "rtgsub"; cls; font; ll] ->
     let u = ucls_of_sx cls and f = font_of_sx font in
     sx_of_presult (m_parse u f (m_explain_gsub u f (lookups_of_sx ll)))
